@@ -23,15 +23,23 @@ func (u *Unit) modified(nodes ...ast.Node) (map[*types.Var]bool, map[string]bool
 }
 
 func (u *Unit) loopSpec(n ast.Stmt) (*LoopSpec, int) {
-	if u.con == nil || len(u.inlineStack) > 0 {
-		return nil, 0
+	ord := u.loopOrdinal(n)
+	if u.con == nil || ord == 0 {
+		return nil, ord
+	}
+	return u.con.Loops[ord], ord
+}
+
+func (u *Unit) loopOrdinal(n ast.Stmt) int {
+	if u.fi == nil {
+		return 0
 	}
 	for i, l := range u.fi.loops {
 		if l == n {
-			return u.con.Loops[i+1], i + 1
+			return i + 1
 		}
 	}
-	return nil, 0
+	return 0
 }
 
 func (u *Unit) havocVars(st *State, vars map[*types.Var]bool) {
@@ -392,6 +400,9 @@ func (u *Unit) execRangeMap(s *ast.RangeStmt, st *State, mt *types.Map) []Outcom
 	sub := u.reg.fresh("k", ks)
 	_ = sub
 	u.assumeInvariants(st, ls, bind)
+	if n > 0 {
+		u.commuteCheck(s, st, m, mt, dom0, seen, n)
+	}
 	var outs []Outcome
 	bst := st.clone()
 	key := Val{T: u.reg.fresh("key", ks), S: ks, GT: mt.Key()}
